@@ -56,8 +56,10 @@ theorem C15_abm_steps_eq_clock {s s' : Sim} {f k : Nat} (h : ReachableAbm s) (hT
     `steps` ticks lie behind the clock and the next one not yet: `steps·U ≤ now ≤ (steps+1)·U`, and the step of tick
     `steps+1` is armed, live, on the list.  So `steps = ⌊now/U⌋`, except in the one situation `now = (steps+1)·U` — the clock
     has reached a tick whose step is still waiting *at the current time*: this is what `run_next_event` leaves when it executes
-    a user event of HIGH priority that was scheduled for that tick before the step was re-armed (`abm1` below); the very next
-    event executed is then that step.  After `run_until` to a tick the counter equals the clock (`C15_abm_steps_eq_clock`). -/
+    a user event of HIGH priority that was scheduled for that tick before the step was re-armed (`abm1` below), or when such an
+    event raises (aborted states are reachable states); the step of that tick is still armed at the current time and runs after
+    the user events of HIGH priority (or priority < HIGH) that were scheduled for the tick before it was re-armed.  After a
+    `run_until` to a tick that returns normally the counter equals the clock (`C15_abm_steps_eq_clock`). -/
 theorem C15_abm_steps_track_clock {s : Sim} (h : ReachableAbm s) :
     (s.steps : Int) * U ≤ s.now ∧ s.now ≤ ((s.steps : Int) + 1) * U ∧
     ∃ st ∈ s.pending, st.isStep = true ∧ st.cancelled = false ∧ st.dead = false ∧ st.time = ((s.steps : Int) + 1) * U := by
